@@ -384,6 +384,17 @@ CHECKS += [
          technique="lifted execution with solver-chosen gate kinds (z3-decided forks) against a direct count; z3 integer-arithmetic validity proofs for the expression algebra"),
 ]
 
+CHECKS += [
+    dict(property_id="C30", category="other", engine="E5 symbit + E1 symx",
+         text="The sample array (3 shots x 3 device wires; 4 shots for bin_size) is a matrix of solver bits: all 512 arrays are solver-decided paths of the REAL process_samples of "
+              "ExpectationMP, VarianceMP, ProbabilityMP, CountsMP (all_outcomes on/off), SampleMP for wire subsets in arbitrary order, shot ranges and bin sizes; observables are "
+              "given by EIGENVALUES THAT ARE SYMBOLIC REALS (z3 proves expval/var/sample equal to direct arithmetic on the samples for all spectra), by Pauli words and by plain "
+              "wires (counts / probs compared with a direct count).",
+         note="Category 'other': exhaustive over sample arrays through solver-decided forks; proof-level only in the eigenvalues. Outside: mid-circuit measurement values, broadcasting, "
+              "process_counts, shot vectors.",
+         technique="lifted execution with solver-enumerated sample bits; z3 QF_NRA validity queries over symbolic eigenvalues per sample array"),
+]
+
 _NOT_BUILT = "claimed in DESIGN.md §4 but its solver-based check is not built yet in this tree"
 NOT_APPLICABLE_REASONS = {
     "C04": "equality/hash: Python hash() of concrete payloads and tolerance-based allclose relations; no exact relation a solver can decide",
